@@ -58,6 +58,8 @@ def constgen():
     with Lock("constgen"):
         exe = os.path.join(BUILD, "constgen")
         src = os.path.join(VERIF, "harness", "constgen")
+        os.makedirs(BUILD, exist_ok=True)
+        os.makedirs(os.path.join(COQ, "Gen"), exist_ok=True)   # Gen/Consts.v is generated, never committed
         newest = max(os.path.getmtime(p) for p in glob.glob(src + "/*.go"))
         if not os.path.exists(exe) or os.path.getmtime(exe) < newest:
             rc, out = sh(["go", "build", "-o", exe, "."], cwd=src, env=GOENV)
